@@ -323,11 +323,17 @@ type exch struct {
 	Audience      []string
 	Resource      []string
 	GrantNil      bool // the storage grants no scope for this request
+	Multi         bool // a step of a multi-issuer history (multi.go)
 }
 
 type stepLog struct {
 	Step     string     `json:"step"`
 	Router   string     `json:"router"`
+	// multi-issuer worlds: where the request was sent and which issuer that request stands for
+	Host      string `json:"request_host,omitempty"`
+	Forwarded string `json:"forwarded_header,omitempty"`
+	Issuer    string `json:"request_issuer,omitempty"`
+	Tokens    string `json:"tokens,omitempty"`
 	Auth     string     `json:"client_auth"`
 	Form     url.Values `json:"form"`
 	Policy   string     `json:"storage_policy"`
@@ -484,13 +490,18 @@ type caseRun struct {
 	returned *opdrv.Tokens
 	retExp   expectation
 	stop     bool
+	extra    map[string]any // further witness members (multi-issuer histories: strategy, views, token pool)
 }
 
 func (cr *caseRun) witness() map[string]any {
-	return map[string]any{
+	m := map[string]any{
 		"router": opdrv.RouterNames[cr.c.router], "spec": cr.sp, "signing_alg": cr.sp.SigAlg, "verifier_storage": cr.sp.Verifier,
 		"preparation": cr.c.prep, "requests": cr.log,
 	}
+	for k, v := range cr.extra {
+		m[k] = v
+	}
+	return m
 }
 
 func (cr *caseRun) violate(key, what string) {
@@ -520,6 +531,12 @@ var tokenMembers = []string{"access_token", "refresh_token", "id_token"}
 func (cr *caseRun) do(e *exch) *opdrv.Tokens {
 	run, c, w := cr.run, cr.c, cr.c.w
 	rn := opdrv.RouterNames[c.router]
+	// the mandatory scenarios of the single-issuer strata are not satisfied by steps of multi-issuer histories
+	// (those have their own names, multi.go)
+	observed := run.Observed
+	if e.Multi {
+		observed = func(string) {}
+	}
 	auth, authenticated, authDesc := credential(w, e.Client, e.Cred)
 	policy := cr.sp.Policy
 	w.Store.TEPolicy = policy
@@ -548,6 +565,18 @@ func (cr *caseRun) do(e *exch) *opdrv.Tokens {
 		}
 		add := func(role string, t *tok, declared string) {
 			reason, g := classify(t, declared, cr.sp.Verifier)
+			if (reason == "" || g) && t.Issuer != "" && t.Issuer != w.Issuer {
+				// a provider whose issuer depends on the request: the token was issued under another issuer than the
+				// one this request is addressed to. A token that names its issuer (ID token, JWT access token) is a
+				// foreign token here, however live it is at its own issuer; opaque and refresh tokens name none (grey)
+				if !t.bound() {
+					grey = append(grey, role+"-unbound-token-of-another-issuer")
+				} else {
+					must = append(must, why{fmt.Sprintf("%s token foreign: %s/%s (%s) was issued under %s (%s), the request is addressed to %s", role, t.Kind, t.Variant, t.Form, t.Issuer, t.IssuedAt, w.Issuer),
+						role + "-foreign:other-issuer-of-the-provider:" + t.Form})
+					return
+				}
+			}
 			if reason == "" {
 				return
 			}
@@ -583,6 +612,13 @@ func (cr *caseRun) do(e *exch) *opdrv.Tokens {
 		body = body[:1200] + "..."
 	}
 	sl := stepLog{Step: e.Step, Router: rn, Auth: authDesc, Form: form, Policy: policyNames[policy], Status: resp.Status, Body: body}
+	if v := w.view; v != nil {
+		sl.Host, sl.Forwarded, sl.Issuer = v.Host, v.hdr, v.Issuer
+		sl.Tokens = "subject " + e.Subj.ref()
+		if e.Actor != nil {
+			sl.Tokens += "; actor " + e.Actor.ref()
+		}
+	}
 	cr.log = append(cr.log, sl)
 	last := &cr.log[len(cr.log)-1]
 
@@ -648,14 +684,14 @@ func (cr *caseRun) do(e *exch) *opdrv.Tokens {
 		if cr.sp.VetoAtClaims {
 			for _, en := range w.Store.Journal() {
 				if (en.Method == "GetPrivateClaimsFromTokenExchangeRequest" || en.Method == "SetUserinfoFromTokenExchangeRequest") && en.Err != "" && !en.Fault {
-					run.Observed("refused:storage-veto-at-claims:" + rn)
+					observed("refused:storage-veto-at-claims:" + rn)
 					run.Count("veto_at_claims|"+rn, "refused at "+en.Method+": requested="+e.ReqDim)
 					break
 				}
 			}
 		}
 		if hookVeto && cr.sp.VetoAtCreate {
-			run.Observed("refused:storage-veto-at-create:" + rn)
+			observed("refused:storage-veto-at-create:" + rn)
 			run.Count("veto_at_create_refused|"+rn, "requested="+e.ReqDim)
 		}
 		switch {
@@ -668,7 +704,7 @@ func (cr *caseRun) do(e *exch) *opdrv.Tokens {
 				}
 				run.Count("refusal_required_reason", k)
 			}
-			run.Observed("refused:" + strings.SplitN(must0[0].key, ":", 2)[0] + ":" + rn)
+			observed("refused:" + strings.SplitN(must0[0].key, ":", 2)[0] + ":" + rn)
 			run.SampleKind("refused/"+strings.SplitN(must0[0].key, ":", 2)[0], last)
 		case len(grey0) > 0:
 			last.Verdict = "refused (grey: " + strings.Join(grey0, ",") + ")"
@@ -719,34 +755,34 @@ func (cr *caseRun) do(e *exch) *opdrv.Tokens {
 	issued := shortType(x.Issued)
 	run.Count("success|"+rn, fmt.Sprintf("subject=%s actor=%s issued=%s policy=%s", e.Subj.Kind, actorKind, issued, policyNames[policy]))
 	run.Count("success_client", e.Client.ID+"/"+e.Cred)
-	run.Observed("success:" + rn + ":" + issued)
-	run.Observed("success:subject=" + e.Subj.Kind + "/" + shortType(e.SubjDeclared))
+	observed("success:" + rn + ":" + issued)
+	observed("success:subject=" + e.Subj.Kind + "/" + shortType(e.SubjDeclared))
 	if e.Actor != nil {
-		run.Observed("success:actor:" + rn)
-		run.Observed("success:actor=" + e.Actor.Kind)
+		observed("success:actor:" + rn)
+		observed("success:actor=" + e.Actor.Kind)
 	}
 	if policy == vstore.TEImpersonate {
-		run.Observed("success:impersonate:" + rn)
+		observed("success:impersonate:" + rn)
 		if !slices.Contains(x.Scopes, oidc.ScopeOpenID) {
 			run.Count("impersonated_without_openid|"+rn, fmt.Sprintf("issued=%s userinfo-subject-by-scope=%v", issued, cr.sp.UISubjectByScope))
 			if cr.sp.UISubjectByScope && issued == "id_token" {
-				run.Observed("impersonated-id_token-without-openid:" + rn)
+				observed("impersonated-id_token-without-openid:" + rn)
 			}
 			if strings.Count(toks.Access, ".") == 2 && issued != "id_token" {
-				run.Observed("impersonated-jwt-access-token-without-openid:" + rn)
+				observed("impersonated-jwt-access-token-without-openid:" + rn)
 			}
 		}
 	}
-	if e.Step != "primary" {
-		run.Observed("success:follow-up")
+	if e.Step != "primary" && !e.Multi {
+		observed("success:follow-up")
 	}
 	if e.GrantNil && e.Scope != "\x00" && len(strings.Fields(e.Scope)) > 1 {
-		run.Observed("success:grant-nil:" + rn)
-		run.Observed("success:grant-nil:" + issued)
+		observed("success:grant-nil:" + rn)
+		observed("success:grant-nil:" + issued)
 		run.Count("grant_nil_success|"+rn, "issued="+issued)
 	}
 	if cr.sp.Extras && e.Actor != nil && issued != "id_token" && strings.Count(toks.Access, ".") == 2 {
-		run.Observed("success:extras-jwt-actor:" + rn)
+		observed("success:extras-jwt-actor:" + rn)
 		run.Count("extras_jwt_actor_success|"+rn, "issued="+issued)
 	}
 	run.SampleKind("success/"+issued+"/"+actorKind[:min(4, len(actorKind))], last)
@@ -1111,13 +1147,17 @@ func main() {
 		"(cell = case mod 2160) with drawn variant, actor declared type, policy, client, credential, scope/audience/resource lists, signing alg, verifier storage; " +
 		"stratum 'near-valid' draws conforming requests and makes exactly one dimension non-conforming in half of them; a third/half of the cases add one follow-up request (repeat, repeat after revoking the subject, " +
 		"returned token as subject / actor, returned token after its revocation). Every token-endpoint answer is an evaluation; distinct = distinct vectors " +
-		"(router, step, subject kind/variant, declared type, actor kind, actor declared type, requested type, policy, client, credential kind, verifier storage)")
+		"(router, step, subject kind/variant, declared type, actor kind, actor declared type, requested type, policy, client, credential kind, verifier storage); " +
+		"stratum 'multi-issuer' (case indices from 2e6): one provider with a request-dependent issuer (IssuerFromHost \"\" and \"/tenant/x\", IssuerFromForwardedOrHost behind a proxy) serving two or three hosts; " +
+		"code flows under every host, then a history of 5-10 exchanges that presents ID tokens, JWT / opaque access tokens, refresh tokens and the tokens earlier steps returned at the issuer they were issued under and at the others, " +
+		"as subject or actor (5 scripted histories x 3 strategies, then drawn ones); the step name carries the relation (own / other / other-unbound) of subject and actor to the addressed issuer")
 	run.Assume(
 		"vstore policy (DESIGN 3): ValidateTokenExchangeRequest vets liveness of access / refresh tokens by id and subject, accepts ID tokens the framework verified, sets requested type access_token when absent, keeps only known scopes (default openid), impersonation replaces the subject, veto answers invalid_target",
 		"an ID token is live iff genuine and unexpired (not revocable, DESIGN 6a); expiry is produced by the harness hours away from now, never by racing the clock",
 		"a public client that only identifies itself, a client without the token-exchange grant (C05's business) and a genuine JWT declared as the generic urn:...:jwt type are grey: counted, never failed",
 		"issued_token_type refresh_token is judged as DESIGN decided: the response's refresh_token member must be a live refresh token usable at the refresh grant (the accompanying access_token is verified like an access token)",
-		"only refusal is never judged ('succeeds only for'): a conforming request that is refused is counted in conforming_refused")
+		"only refusal is never judged ('succeeds only for'): a conforming request that is refused is counted in conforming_refused",
+		"a provider whose issuer depends on the request is one provider per issuer: an ID token or JWT access token issued under host A is the quantifier's 'foreign' kind at host B of the same instance (as C08 models it); opaque access tokens and refresh tokens name no issuer and are grey across hosts; what a 200 contains must be live at, and name the issuer of, the host that answered")
 	var mandatory []string
 	for _, rn := range opdrv.RouterNames {
 		mandatory = append(mandatory, "success:"+rn+":access_token", "success:"+rn+":refresh_token", "success:"+rn+":id_token",
@@ -1131,16 +1171,24 @@ func main() {
 	mandatory = append(mandatory, "success:subject=opaque/access_token", "success:subject=jwt/access_token", "success:subject=refresh/refresh_token",
 		"success:subject=id/id_token", "success:subject=foreign/jwt", "success:actor=opaque", "success:actor=jwt", "success:actor=refresh", "success:actor=id", "success:follow-up",
 		"success:grant-nil:access_token", "success:grant-nil:refresh_token", "success:grant-nil:id_token")
+	mandatory = append(mandatory, mtMandatory()...)
 	if run.ReplayCase() < 0 {
 		run.Mandatory(mandatory...)
 	}
 
 	matrixCases := run.N(matrixSize, 18*matrixSize)
 	n := run.N(matrixSize+4320, 18*matrixSize+36120) // 3 600 / 75 000 cases, each on both routers
-	run.Extra("cases", map[string]int{"scripted_scenarios": len(scenarios), "matrix": matrixCases, "near_valid": n - matrixCases, "routers": 2})
+	nMulti := mtScriptedCount() + run.N(240, 6000) // multi-issuer histories (multi.go), each on both routers
+	run.Extra("cases", map[string]int{"scripted_scenarios": len(scenarios), "matrix": matrixCases, "near_valid": n - matrixCases, "routers": 2,
+		"multi_issuer_scripted": mtScriptedCount(), "multi_issuer_generated": nMulti - mtScriptedCount()})
 	if rc := run.ReplayCase(); rc >= 0 {
-		runCase(run, int(rc), 0, matrixCases)
-		runCase(run, int(rc), 1, matrixCases)
+		for router := 0; router < 2; router++ {
+			if rc >= multiBase {
+				runMulti(run, int(rc)-multiBase, router)
+			} else {
+				runCase(run, int(rc), router, matrixCases)
+			}
+		}
 		run.Finish()
 	}
 	for k := range scenarios {
@@ -1150,6 +1198,17 @@ func main() {
 			}
 		}
 	}
+	phase := map[string]float64{}
+	t0 := timeNow()
+	ev.Parallel(nMulti, 0, func(_ int, k int) {
+		for router := 0; router < 2; router++ {
+			if pi := catch(func() { runMulti(run, k, router) }); pi != nil {
+				run.HarnessBug(fmt.Sprintf("multi-issuer history %d router %d: panic outside a monitored call: %s at %s", k, router, pi.Value, pi.Frame))
+			}
+		}
+	})
+	phase["multi_issuer"] = timeNow().Sub(t0).Seconds()
+	t0 = timeNow()
 	ev.Parallel(n, 0, func(_ int, i int) {
 		for router := 0; router < 2; router++ {
 			if pi := catch(func() { runCase(run, i, router, matrixCases) }); pi != nil {
@@ -1157,5 +1216,7 @@ func main() {
 			}
 		}
 	})
+	phase["matrix_and_near_valid"] = timeNow().Sub(t0).Seconds()
+	run.Extra("phase_wall_s", phase) // reporting only; nothing depends on it
 	run.Finish()
 }
